@@ -79,6 +79,31 @@ def make_queries(tier):
         E.prove("assertion label recovered from the relative URI", veq(E.call("assertion_label_from_uri", rel), some(a)))
         E.cover("labels of length >= 4", z3.And(ugt(m.e.n, bv(3)), ugt(a.e.n, bv(3))))
 
+    def q_relative_absolute_other_boxes(E):
+        """relative/absolute conversion is an inverse pair for databox, credential and signature URIs too"""
+        m, d = label(E, "m", C["m"]), label(E, "d", C["a"])
+        for kind, uri, rel_want in (
+                ("databox", E.call("to_databox_uri", m, d), bstr.concat(bstr.lit("self#jumbf=c2pa.databoxes/"), d.e)),
+                ("credential", E.call("to_verifiable_credential_uri", m, d), bstr.concat(bstr.lit("self#jumbf=c2pa.credentials/"), d.e))):
+            rel = E.call("to_relative_uri", uri)
+            E.prove("%s URI: relative form is self#jumbf=<store>/<label>" % kind, veq(rel, VStr(rel_want)))
+            E.prove("%s URI: absolute(relative(uri)) == uri" % kind, veq(E.call("to_absolute_uri", m, rel), uri))
+            E.prove("%s URI: absolute of the absolute URI is unchanged" % kind, veq(E.call("to_absolute_uri", m, uri), uri))
+        su = E.call("to_signature_uri", m)
+        srel = VStr(bstr.lit("self#jumbf=c2pa.signature"))
+        E.prove("signature URI: absolute(self#jumbf=c2pa.signature) == signature URI", veq(E.call("to_absolute_uri", m, srel), su))
+        E.cover("labels of length >= 3", z3.And(ugt(m.e.n, bv(2)), ugt(d.e.n, bv(2))))
+
+    def q_absolute_uri_keeps_foreign_manifest(E):
+        """to_absolute_uri leaves a URI that already names a manifest untouched, whatever the current manifest"""
+        m, other = label(E, "m", C["m"]), label(E, "other", C["m"])
+        mu = E.call("to_manifest_uri", other)
+        su = E.call("to_signature_uri", other)
+        E.prove("an absolute manifest URI is not re-prefixed", veq(E.call("to_absolute_uri", m, mu), mu))
+        E.prove("an absolute signature URI is not re-prefixed", veq(E.call("to_absolute_uri", m, su), su))
+        E.prove("the manifest label of the result is the foreign manifest", veq(E.call("manifest_label_from_uri", E.call("to_absolute_uri", m, mu)), some(other)))
+        E.cover("two different manifests", z3.Not(bstr.eq(m.e, other.e)))
+
     def q_parsers_total(E):
         """URI parsers never panic on arbitrary printable input (at most 6 of each separator)"""
         u = E.str("u", C["m"] + 8, "printable")
@@ -135,7 +160,8 @@ def make_queries(tier):
         E.cover("v1 label with vendor", is_some(cgi))
         E.cover("v1 label without vendor", z3.Not(is_some(cgi)))
 
-    qs = [q_manifest_parts_roundtrip_v2, q_manifest_parts_roundtrip_v1, q_assertion_uri_roundtrip, q_manifest_and_signature_uri, q_databox_and_credential_uri, q_relative_absolute, q_parsers_total]
+    qs = [q_manifest_parts_roundtrip_v2, q_manifest_parts_roundtrip_v1, q_assertion_uri_roundtrip, q_manifest_and_signature_uri, q_databox_and_credential_uri, q_relative_absolute, q_relative_absolute_other_boxes,
+          q_absolute_uri_keeps_foreign_manifest, q_parsers_total]
     return qs
 
 
